@@ -26,6 +26,10 @@ pub enum Op {
     /// advance the clock: 0 = timeout-1ns, 1 = timeout, 2 = timeout+1ns, 3 = small, 4 = 3*timeout
     Advance(u8, u32),
     Observe { kind: u8 },
+    /// (prom_idle only) PrometheusHandle::run_upkeep — maintenance, not an observation
+    Upkeep,
+    /// (recency only) update keys 0..upto of one kind
+    UpdateAll { kind: u8, upto: usize, preserve: bool },
 }
 
 #[derive(Clone, Debug, Serialize, Deserialize)]
@@ -34,6 +38,10 @@ pub struct Plan {
     pub mask: u8,
     pub nkeys: usize,
     pub ops: Vec<Op>,
+    /// 0 = an observation checks the listed keys in key order; otherwise in a seeded permutation
+    /// (exporters iterate a hash map, so every order is one a user can meet)
+    #[serde(default)]
+    pub order: u64,
 }
 
 fn mask_of(m: u8) -> MetricKindMask {
@@ -54,7 +62,8 @@ fn key(i: usize) -> Key {
     match i {
         0 => Key::from_name("k"),
         1 => Key::from_parts("k", vec![Label::new("a", "1")]),
-        _ => Key::from_name("other"),
+        2 => Key::from_name("other"),
+        _ => Key::from_parts("w", vec![Label::new("i", i.to_string())]),
     }
 }
 
@@ -105,7 +114,21 @@ impl Scenario for C12Recency {
     fn plan(&self, r: &mut Rng, tier: Tier) -> Plan {
         let nkeys = r.range(1, 3) as usize;
         let n = r.range(3, if tier == Tier::Thorough { 30 } else { 16 });
-        Plan { timeout_ms: if r.chance(120) { None } else { Some(r.range(1, 50)) }, mask: *r.pick(&[7u8, 7, 7, 1, 2, 4, 3, 5, 6, 0]), nkeys, ops: gen_ops(r, nkeys, 3, n) }
+        if r.chance(60) {
+            // wide population of one kind: the recency table grows and is walked in varying order
+            let nkeys = r.range(4, 31) as usize;
+            let kind = r.below(3) as u8;
+            let ops = (0..n)
+                .map(|_| match r.below(10) {
+                    0..=1 => Op::UpdateAll { kind, upto: r.range(1, nkeys as u64) as usize, preserve: r.chance(300) },
+                    2..=3 => Op::Update { kind, key: r.below(nkeys as u64) as usize, preserve: r.chance(300) },
+                    4..=6 => Op::Advance(r.below(5) as u8, r.range(1, 1000) as u32),
+                    _ => Op::Observe { kind },
+                })
+                .collect();
+            return Plan { timeout_ms: Some(r.range(1, 50)), mask: 7, nkeys, ops, order: r.next_u64() | 1 };
+        }
+        Plan { timeout_ms: if r.chance(120) { None } else { Some(r.range(1, 50)) }, mask: *r.pick(&[7u8, 7, 7, 1, 2, 4, 3, 5, 6, 0]), nkeys, ops: gen_ops(r, nkeys, 3, n), order: 0 }
     }
     fn execute(&self, plan: &Plan, sched: &SchedSpec) -> RunReport {
         let log: Arc<Mutex<Vec<String>>> = Arc::new(Mutex::new(vec![]));
@@ -128,7 +151,13 @@ impl Scenario for C12Recency {
             for (i, op) in p.ops.iter().enumerate() {
                 dsim::point("c12.op");
                 match op {
-                    Op::Update { kind, key: ki, preserve } => {
+                    Op::Update { .. } | Op::UpdateAll { .. } => {
+                      let ups: Vec<(u8, usize, bool)> = match op {
+                          Op::Update { kind, key, preserve } => vec![(*kind, *key, *preserve)],
+                          Op::UpdateAll { kind, upto, preserve } => (0..(*upto).min(p.nkeys)).map(|k| (*kind, k, *preserve)).collect(),
+                          _ => unreachable!(),
+                      };
+                      for (kind, ki, preserve) in ups.iter().map(|u| (&u.0, &u.1, &u.2)) {
                         let k = key(*ki);
                         let st = model.entry((*kind, *ki)).or_default();
                         if !st.exists {
@@ -158,7 +187,9 @@ impl Scenario for C12Recency {
                                 }
                             }
                         }
+                      }
                     }
+                    Op::Upkeep => {}
                     Op::Advance(how, small) => {
                         let d = advance_nanos(p.timeout_ms, *how, *small);
                         mock.increment(d);
@@ -173,27 +204,36 @@ impl Scenario for C12Recency {
                             0 => {
                                 let mut hs: Vec<_> = registry.get_counter_handles().into_iter().collect();
                                 hs.sort_by(|a, b| a.0.cmp(&b.0));
+                                if p.order != 0 {
+                                    hs.sort_by_key(|h| crate::util::hash_str(&format!("{}:{:?}", p.order, h.0)));
+                                }
                                 for (k, h) in hs {
                                     let keep = recency.should_store_counter(&k, h.get_generation(), &registry);
-                                    let ki = (0..3).find(|i| key(*i) == k).unwrap_or(9);
+                                    let ki = (0..p.nkeys.max(3)).find(|i| key(*i) == k).unwrap_or(99);
                                     seen.push((ki, keep, h.get_inner().load(Ordering::SeqCst)));
                                 }
                             }
                             1 => {
                                 let mut hs: Vec<_> = registry.get_gauge_handles().into_iter().collect();
                                 hs.sort_by(|a, b| a.0.cmp(&b.0));
+                                if p.order != 0 {
+                                    hs.sort_by_key(|h| crate::util::hash_str(&format!("{}:{:?}", p.order, h.0)));
+                                }
                                 for (k, h) in hs {
                                     let keep = recency.should_store_gauge(&k, h.get_generation(), &registry);
-                                    let ki = (0..3).find(|i| key(*i) == k).unwrap_or(9);
+                                    let ki = (0..p.nkeys.max(3)).find(|i| key(*i) == k).unwrap_or(99);
                                     seen.push((ki, keep, f64::from_bits(h.get_inner().load(Ordering::SeqCst)) as u64));
                                 }
                             }
                             _ => {
                                 let mut hs: Vec<_> = registry.get_histogram_handles().into_iter().collect();
                                 hs.sort_by(|a, b| a.0.cmp(&b.0));
+                                if p.order != 0 {
+                                    hs.sort_by_key(|h| crate::util::hash_str(&format!("{}:{:?}", p.order, h.0)));
+                                }
                                 for (k, h) in hs {
                                     let keep = recency.should_store_histogram(&k, h.get_generation(), &registry);
-                                    let ki = (0..3).find(|i| key(*i) == k).unwrap_or(9);
+                                    let ki = (0..p.nkeys.max(3)).find(|i| key(*i) == k).unwrap_or(99);
                                     let mut n = 0u64;
                                     h.get_inner().data_with(|s| n += s.len() as u64);
                                     seen.push((ki, keep, n));
@@ -347,12 +387,13 @@ impl Scenario for C12PromIdle {
     fn plan(&self, r: &mut Rng, tier: Tier) -> PPlan {
         let n = r.range(3, if tier == Tier::Thorough { 24 } else { 14 });
         let ops = (0..n)
-            .map(|_| match r.below(10) {
+            .map(|_| match r.below(11) {
                 0..=3 => {
                     let m = r.below(5) as usize;
                     Op::Update { kind: if m < 2 { 0 } else if m == 2 { 1 } else { 2 }, key: m, preserve: r.chance(400) }
                 }
                 4..=6 => Op::Advance(r.below(5) as u8, r.range(1, 1000) as u32),
+                10 => Op::Upkeep,
                 _ => Op::Observe { kind: 0 },
             })
             .collect();
@@ -421,6 +462,9 @@ impl Scenario for C12PromIdle {
                             dsim::advance(d);
                             now += d;
                         }
+                        // maintenance between scrapes: folds histogram samples, is not an observation
+                        Op::Upkeep => handle.run_upkeep(),
+                        Op::UpdateAll { .. } => {}
                         Op::Observe { .. } => {
                             let text = handle.render();
                             let fams = match promtext::parse(&text) {
